@@ -189,6 +189,19 @@ def run(tier, seed):
             for mode in ('conf', 'canon', 'wild'):
                 t = g.conf_segment(n) if mode == 'conf' else g.segment(n, mode=mode, overflow=(mode == 'wild'))
                 sj.append((v, t))
+        # a second component in a field of a base datatype, for every base datatype of every version (what is a base datatype depends on
+        # the version): STRICT refuses it; if it did not, the two levels would report differently on the same accepted text
+        seen_dt = set()
+        for n in names:
+            sref = g.lib.SEGMENTS[n]
+            if n in ex.get(v, []) or not (gen.is_seq(sref) and len(sref) > 1 and gen.is_seq(sref[1])):
+                continue
+            for i, row in enumerate(sref[1], 1):
+                if gen.is_seq(row) and len(row) == 4 and gen.well_formed_ref(row[1]) and len(row[1]) == 6 and row[1][0] == 'leaf' \
+                        and row[1][2] not in seen_dt and row[1][2] != 'varies' and row[2][1] != 0:
+                    seen_dt.add(row[1][2])
+                    val = gen.SAFE.get(row[1][2], 'X')
+                    sj.append((v, n + '|' * i + val + '^' + val))
         for mt in rng.sample(g.structures(), min(len(g.structures()), 5 if tier == 'quick' else 60)):
             for style in ('required', 'all'):
                 try:
